@@ -79,10 +79,10 @@ func c02World(c c02cfg) (*sim.World, []peer.ID) {
 
 func c02Configs(tier string) []vmc.Cfg {
 	type kab struct{ k, a, b int }
-	kabs := []kab{{2, 2, 1}, {3, 3, 2}}
+	kabs := []kab{{2, 2, 1}, {3, 3, 2}, {2, 1, 3}} // the last one: beta > K (more answers required than peers returned)
 	keys := []string{"000", "011", "101", "110"}
 	if tier == "thorough" {
-		kabs = []kab{{1, 1, 1}, {2, 1, 1}, {2, 2, 1}, {2, 2, 2}, {3, 2, 2}, {3, 3, 3}, {2, 3, 1}}
+		kabs = []kab{{1, 1, 1}, {2, 1, 1}, {2, 2, 1}, {2, 2, 2}, {3, 2, 2}, {3, 3, 3}, {2, 3, 1}, {1, 1, 2}, {2, 1, 3}, {2, 2, 3}}
 		keys = []string{"000", "001", "010", "011", "100", "101", "110", "111"}
 	}
 	var out []vmc.Cfg
